@@ -1,0 +1,76 @@
+//go:build verif
+
+// Contracts for the verif framework (/verif). Comment-only: this file
+// declares nothing and is compiled only with -tags=verif.
+
+package cache
+
+// Ghost state: /verif/specs/fs.spec (fsExists, fsMtime, clock, failBudget, ...).
+// Times are integers of nanoseconds (tns).
+
+//@ property C13: (*Cache).used, (*Cache).trimSubdir, (*Cache).Trim, (*Cache).OutputFile, (*Cache).fileName, lemma:retention
+
+// a cache entry name: "<hex>-a" (index entry) or "<hex>-d" (data file)
+//@ pure func entryName(n string) bool = len(n) >= 2 && n[len(n)-2] == '-' && (n[len(n)-1] == 'a' || n[len(n)-1] == 'd')
+//@ pure func hour() int = 3600000000000
+//@ pure func day() int = 86400000000000
+
+//@ func (*Cache).fileName
+//@   requires c != nil
+//@   pure
+
+// used: if the file exists and no file operation fails, its mtime afterwards is
+// younger than one hour before the call ("looking an entry up refreshes it").
+//@ func (*Cache).used
+//@   requires c != nil
+//@   callee c.now() (r): modifies clock; ensures tns(r) >= old(clock) && clock == tns(r)
+//@   modifies fsMtime, failBudget, clock
+//@   ensures old(failBudget) == 0 && old(fsExists)[file] ==> fsMtime[file] > old(clock) - hour()
+//@   ensures forall p int {fsMtime[p]} :: p != sid(file) ==> fsMtime[p] == old(fsMtime)[p]
+//@   ensures clock >= old(clock) && (old(failBudget) == 0 ==> failBudget == 0)
+
+//@ func (*Cache).OutputFile
+//@   requires c != nil
+//@   modifies fsMtime, failBudget, clock
+//@   at call (*cache.Cache).used#1: requires sameStr(file, my_file)
+//@   ensures old(failBudget) == 0 && old(fsExists)[result] ==> fsMtime[result] > old(clock) - hour()
+
+// trimSubdir removes only names reported by the directory listing that are cache
+// entry names (-a / -d) with an mtime before the cutoff, and (when no operation
+// fails) removes every such name.
+//@ func (*Cache).trimSubdir
+//@   requires c != nil
+//@   modifies fsExists, failBudget, fdPath, fdMode, fdClosed
+//@   at call os.Remove#1: requires entryName(my_name) && sameStr(name, joinP(subdir, my_name)) && fsExists[name] && fsMtime[name] < tns(cutoff)
+//@   loop 1: invariant -1 <= rangeindex && rangeindex < len(names) && (old(failBudget) == 0 ==> failBudget == 0)
+//@   loop 1: invariant forall K {at(names,K)} :: lo(names) <= K && K <= lo(names) + rangeindex && old(failBudget) == 0 && entryName(at(names,K)) && old(fsExists)[joinP(subdir, at(names,K))] && fsMtime[joinP(subdir, at(names,K))] < tns(cutoff) ==> !fsExists[joinP(subdir, at(names,K))]
+//@   loop 1: invariant forall p int {fsExists[p]} :: fsExists[p] ==> old(fsExists)[p]
+//@   loop 1: decreases len(names) - rangeindex
+
+// The retention arithmetic: something used at time u (so its mtime is younger than
+// u - 1h) is not older than the cutoff of a trim at any time now <= u + 5d.
+//@ lemma retention: forall u int; m int; now int :: now - u <= 5 * day() && m > u - hour() ==> !(m < now - 5 * day() - hour())
+
+// "The last-trim record, as read, says a trim completed within (-1h, 24h) of now."
+//@ pure func parseOKId(id int) bool
+//@ pure func parseValId(id int) int
+//@ pure func recentTrim(rdOK bool, recId int, nowNs int) bool = rdOK && parseOKId(recId) && nowNs - parseValId(recId) * 1000000000 < 24 * hour() && nowNs - parseValId(recId) * 1000000000 > 0 - hour()
+
+//@ extern strconv.ParseInt(s, base, bitSize) (v, err)
+//@   pure
+//@   ensures (err == nil) == parseOKId(sid(s))
+//@   ensures err == nil ==> v == parseValId(sid(s))
+
+// Trim: nothing at all happens when a trim is recent; otherwise the cutoff is
+// now - 5d - 1h for every subdirectory pass.
+//@ func (*Cache).Trim
+//@   names (err)
+//@   requires c != nil
+//@   callee c.now() (r): modifies clock; ensures tns(r) >= old(clock) && clock == tns(r); bind nowV = r
+//@   at call lockedfile.Read#1: bind rdErr = err
+//@   at call strings.TrimSpace#1: bind rec = r
+//@   at call (*cache.Cache).trimSubdir#1: requires tns(cutoff) == tns(nowV) - 5 * day() - hour()
+//@   at call (*cache.Cache).trimSubdir#1: requires !recentTrim(rdErr == nil, sid(rec), tns(nowV))
+//@   at call lockedfile.Write#1: requires !recentTrim(rdErr == nil, sid(rec), tns(nowV))
+//@   ensures err == nil && !recentTrim(rdErr == nil, sid(rec), tns(nowV)) ==> fsWrites[joinP(c.dir, "trim.txt")] > old(fsWrites)[joinP(c.dir, "trim.txt")]
+//@   ensures recentTrim(rdErr == nil, sid(rec), tns(nowV)) ==> err == nil && fsExists == old(fsExists) && fsMtime == old(fsMtime) && fsBytes == old(fsBytes) && fsSize == old(fsSize) && fsData == old(fsData)
